@@ -22,10 +22,6 @@ type lgen struct {
 	n     int
 	ops   map[string]int
 	async []string // statements for the async main function
-	// (F12, established) a tagged template and a `var` declaration / for-of head with an object
-	// rest pattern in the same scope collide on the temporary `_a` when both are lowered (e.g.
-	// --target=node8): the two kinds of snippet are kept in different programs
-	hasTemplate, hasForRest bool
 }
 
 func newLgen(r *Rng) *lgen { return &lgen{r: r, ops: map[string]int{}} }
@@ -103,7 +99,7 @@ func (g *lgen) class() string {
 			sb.WriteString("  static { " + g.p("\"static-block\", this === "+c) + "; }\n")
 			g.ops["static-block"]++
 		case 5:
-			if !hasPriv && !hasStaticPriv {
+			if !hasPriv {
 				sb.WriteString("  #p = " + g.pval() + ";\n")
 				sb.WriteString("  getP() { return this.#p; }\n  setP(v) { return this.#p = v; }\n")
 				sb.WriteString("  opP(v) { this.#p ??= " + g.p("\"rhs1\"") + "; this.#p ||= v; this.#p &&= " + g.p("v") + "; return this.#p; }\n")
@@ -131,9 +127,7 @@ func (g *lgen) class() string {
 				g.ops["private-accessor"]++
 			}
 		case 8:
-			// (F11, established) a static private field next to a `#p in o` brand check yields invalid output
-			// when only the brand check is unsupported: the two groups are kept in different classes
-			if !hasStaticPriv && !hasPriv {
+			if !hasStaticPriv {
 				sb.WriteString("  static #sp = " + g.pval() + ";\n  static #sm() { return " + g.p("\"#sm\", this === "+c) + "; }\n")
 				sb.WriteString("  static readSP() { return [" + c + ".#sp, " + c + ".#sm(), this.#sp]; }\n")
 				hasStaticPriv = true
@@ -304,11 +298,8 @@ func (g *lgen) asyncSnippet() string {
 	case 3: // async generator
 		f := g.fresh("ag")
 		early := r.Bool()
-		// (F9, established) it.return() while suspended inside a try whose finally
-		// awaits skips the rest of the finally in the lowered helper: the random
-		// stream keeps "early return" and "await in finally" apart
 		fin := g.p("\"gen-finally\"") + "; await null; yield \"from-finally\"; " + g.p("\"after-await-in-finally\"") + ";"
-		if early {
+		if r.Chance(30) {
 			fin = g.p("\"gen-finally\"") + "; yield \"from-finally\"; " + g.p("\"after-yield-in-finally\"") + ";"
 		}
 		sb.WriteString(fmt.Sprintf("async function* %s(n) { try { for (var i = 0; i < n; i++) { var got = yield %s; %s; await null; } yield* [10, Promise.resolve(11)]; return \"ret\"; } finally { %s } }\n", f, g.p("\"yield\", i"), g.p("\"got\", got"), fin))
@@ -331,7 +322,7 @@ func (g *lgen) asyncSnippet() string {
 	case 5: // async methods, super in async, async arrow in class field
 		b, c := g.fresh("AB"), g.fresh("AC")
 		sb.WriteString(fmt.Sprintf("class %s { async bm(z) { await null; return %s; } static async sbm() { return \"sbm\"; } get v() { return \"base-v\"; } }\n", b, g.p("\"bm\", z, this.tag")))
-		sb.WriteString(fmt.Sprintf("class %s extends %s { tag = \"tg\"; #q = 1; async m(z) { var r1 = await super.bm(z); var r2 = await (async () => [super.v, await super.bm(this.#q++), this.#q])(); return [r1, r2, arguments.length]; } static async sm() { return [await super.sbm(), this === %s]; } fld = async () => [this.tag, await this.m(5)]; async *ag() { yield this.tag; yield* [this.#q]; } }\n", c, b, c))
+		sb.WriteString(fmt.Sprintf("class %s extends %s { tag = \"tg\"; #q = 1; async m(z) { var r1 = await super.bm(z); var r2 = await (async () => [super.v, await super.bm(this.#q++), this.#q])(); return [r1, r2, arguments.length]; } static async sm() { return [await super.sbm(), this === %s]; } fld = async () => [this.tag, await this.m(5)]; async *ag() { yield super.v; yield* [this.#q]; } }\n", c, b, c))
 		sb.WriteString("var ao = new " + c + "();\n" + g.p("await ao.m(1, 2)") + ";\n" + g.p("await "+c+".sm()") + ";\n" + g.p("await ao.fld.call(null)") + ";\nfor await (var q of ao.ag()) " + g.p("q") + ";\n")
 	case 6: // await in expression positions with lowered operators
 		sb.WriteString("var ob = {k: null, n: 2, get g() { " + g.p("\"get-g\"") + "; return null; }, set g(v) { " + g.p("\"set-g\", v") + "; }, f(z) { return this === ob ? z : \"bad-this\"; }};\n")
@@ -422,19 +413,9 @@ func (g *lgen) Program(kinds int) string {
 		case 0, 1, 2:
 			sb.WriteString(g.class())
 		case 3, 4:
-			if g.hasTemplate {
-				sb.WriteString(g.chainSnippet())
-			} else {
-				g.hasForRest = true
-				sb.WriteString(g.restSpread())
-			}
+			sb.WriteString(g.restSpread())
 		case 5:
-			if g.hasForRest {
-				sb.WriteString(g.chainSnippet())
-			} else {
-				g.hasTemplate = true
-				sb.WriteString(g.template())
-			}
+			sb.WriteString(g.template())
 		case 6, 7:
 			asyncParts = append(asyncParts, g.asyncSnippet())
 		default:
